@@ -299,3 +299,36 @@ Proof.
     destruct t as [[a b] c]. destruct Hv as (Ha & Hb & Hc0). cbn [map3 triple_valid].
     repeat split; now apply (sigma_lt sg T Hsg).
 Qed.
+
+(* ---- entry-point level ---- *)
+Lemma rect_relabel_rows {A} sg T E (a : list (list A)) :
+  Permutation sg (seq 0 T) -> rect T E a -> rect T E (relabel_rows sg a).
+Proof.
+  intros Hsg Ha. split.
+  - unfold relabel_rows. now rewrite map_length, (sg_length sg T Hsg).
+  - apply Forall_forall. intros r Hr. unfold relabel_rows in Hr. apply in_map_iff in Hr as (i & <- & Hi).
+    apply (rect_row T E a i Ha). apply (Permutation_in _ Hsg) in Hi. apply in_seq in Hi. lia.
+Qed.
+
+Lemma plate_wf_relabel sg T pl : Permutation sg (seq 0 T) -> plate_wf T pl -> plate_wf T (relabel_plate sg pl).
+Proof.
+  intros Hsg (E & Hm & Hv). exists E. split; cbn [relabel_plate fst snd]; now apply rect_relabel_rows.
+Qed.
+
+Lemma complete_valid T ts : complete T ts -> Forall (triple_valid T) ts.
+Proof.
+  intros Hc. apply Forall_forall. intros t Ht. apply desc_valid. now apply (complete_desc T ts t Hc).
+Qed.
+
+Theorem hetero_relabel orc T sg plates D df ts ts' :
+  (0 < T)%nat -> Permutation sg (seq 0 T) -> Forall (plate_wf T) plates -> sym_on T D ->
+  complete T ts -> complete T ts' ->
+  hetero orc (map (relabel_plate sg) plates) (relabel_matrix sg D) df ts' = hetero orc plates D df ts.
+Proof.
+  intros HT Hsg Hwf Hsym Hc Hc'.
+  rewrite !(hetero_eq_direct orc T); try assumption; try now apply complete_valid.
+  - rewrite map_map. apply map_ext_in. intros pl Hin. rewrite Forall_forall in Hwf.
+    apply (direct_relabel orc T sg D df ts ts' pl); auto.
+  - apply Forall_forall. intros pl' Hin. apply in_map_iff in Hin as (pl & <- & Hin).
+    rewrite Forall_forall in Hwf. apply plate_wf_relabel; auto.
+Qed.
